@@ -24,7 +24,7 @@ RULE = ("case = (simulator in {direct Levy process, 1-d chain, copula chain, 1-d
 ASSUMPTIONS = ["jump counts are scripted (Poisson.sample replaced), everything else is recorded, not replaced",
                "copulas: finite-variation margins; grids of at most 9 points per axis"]
 REQUIRED_COUNTERS = ["paths_checked", "fixed_date_paths", "jump_time_paths", "max_step_paths", "multi_date_paths",
-                     "finer_grid_direct_calls", "coupled_paths", "paths_without_jump"]
+                     "finer_grid_direct_calls", "coupled_paths", "paths_without_jump", "coarse_component_checks"]
 MIN_NONTRIVIAL = {"quick": 60, "thorough": 800}
 THOROUGH_ROUNDS = 20      # the thorough tier runs the generators this many times (different seeds)
 SHARD_TIMEOUT = {"quick": 900, "thorough": 7200}
@@ -73,6 +73,7 @@ class Recorder15:
         self.jump_times = []     # arrays returned by jump_times_from_nb_of_jumps, in call order
         self.normals = []        # arrays returned by numpy.random.normal
         self.samples = []        # (size, list of increments) returned by the sampler
+        self.coarse = []         # coarse values returned by the coupling map, in call order
         self.jump_sizes = []     # arrays returned by model.jump_increment
         self.poisson = []
 
@@ -243,6 +244,33 @@ def _sim(case, R):
     from rpylib.distribution.variate.binarysearchtreeadapted import BinarySearchTreeAdapted, BinarySearchTreeAdapted1D
 
     taps = []
+    # record-only taps on the coupling maps (fine increment -> coarse value), top-level calls only
+    from rpylib.process.coupling.couplingmarkovchain import CouplingSimulation
+    from rpylib.process.coupling.couplinglevycopula import CouplingLevyCopulaSimulation
+
+    depth = [0]
+    orig_cs1 = CouplingSimulation.coupling_state
+
+    def coupling_state_1d(self, increment):
+        out = orig_cs1(self, increment)
+        rec.coarse.append(np.array(out, dtype=float, copy=True).reshape(-1))
+        return out
+
+    taps.append(mock.patch.object(CouplingSimulation, "coupling_state", coupling_state_1d))
+    mangled = "_CouplingLevyCopulaSimulation__coupling_state"
+    orig_csn = getattr(CouplingLevyCopulaSimulation, mangled)
+
+    def coupling_state_nd(self, increment, axis_coordinates=None):
+        depth[0] += 1
+        try:
+            out = orig_csn(self, increment, axis_coordinates)
+        finally:
+            depth[0] -= 1
+        if depth[0] == 0:
+            rec.coarse.append(np.array(out, dtype=float, copy=True).reshape(-1))
+        return out
+
+    taps.append(mock.patch.object(CouplingLevyCopulaSimulation, mangled, coupling_state_nd))
     for cls in (BinarySearchTreeAdapted, BinarySearchTreeAdapted1D):
         orig = cls.sample
 
@@ -291,7 +319,7 @@ def _sim(case, R):
         prod_times = np.asarray(product.times_grid().grid if hasattr(product.times_grid(), "grid") else product.times_grid(), dtype=float)
         for ip in range(npaths):
             rec.jump_times, rec.samples, rec.jump_sizes = [], [], []
-            rec.normals = []
+            rec.normals, rec.coarse = [], []
             try:
                 path = simulate()
             except Exception as exc:  # noqa: BLE001
@@ -434,8 +462,49 @@ def _judge(R, case, wit, sim, mode, dates, T, eps, path, rec, prod_times, target
                 if not np.allclose(gd, wantd, rtol=1e-10, atol=1e-12):
                     R.violation(f"{tag}-diffusion-not-running-sum", f"diffusion path {gd.tolist()[:4]} vs cumulated scaled normals {wantd.tolist()[:4]}", wit)
                     return False
+    if coupled and not _judge_coarse(R, wit, tag, sim, mode, dates, T, times, jp[1], rec, prod_times, dim):
+        return False
     if n_jumps:
         R.nontrivial_case(sim, mode, dates, case["seed"], ip)
+    return True
+
+
+def _judge_coarse(R, wit, tag, sim, mode, dates, T, times, jc, rec, prod_times, dim):
+    """coarse component of a coupled path = running sum of the coarse values returned by the coupling map for the simulated fine
+    increments (recorded at the map), carried over the product dates; constant between jump times"""
+    blocks = [int(size) for size, _ in rec.samples]
+    total = int(sum(blocks))
+    if len(rec.coarse) != total:
+        R.skip("coupling-map-calls-do-not-match-the-sampled-increments")
+        return True
+    R.hit("coarse_component_checks")
+    vals = np.array(rec.coarse, dtype=float).reshape(total, dim) if total else np.zeros((0, dim))
+    run = np.cumsum(vals, axis=0)
+    n = times.size
+    jc2 = jc.reshape(dim, n).T if dim > 1 else np.asarray(jc, dtype=float).reshape(n, 1)       # (n, dim)
+    if mode == "fixed":
+        if len(blocks) != n - 1:
+            return True
+        ends = np.cumsum(blocks)
+        want = np.array([run[e - 1] if e > 0 else np.zeros(dim) for e in ends])
+        got = jc2[1:]
+    else:
+        all_t = []
+        for k, (dt, arr) in enumerate(rec.jump_times):
+            all_t.extend((prod_times[k] + arr).tolist())
+        all_t = np.array(all_t, dtype=float)
+        if all_t.size != total:
+            R.skip("jump-times-do-not-match-the-sampled-increments")
+            return True
+        # value carried at time t: running sum over the jumps at or before t
+        cnt = np.searchsorted(all_t, times * (1 + 1e-15) + 1e-15 * T, side="right")
+        want = np.array([run[c - 1] if c > 0 else np.zeros(dim) for c in cnt])
+        got = jc2
+    if not np.allclose(got, want, rtol=1e-10, atol=1e-12):
+        i = int(np.argmax(np.max(np.abs(got - want), axis=1)))
+        R.violation(f"{tag}-coarse-jump-path-not-running-sum", f"{sim} {mode} mode, {dates} dates: coarse jump component {got[i].tolist()} at time index {i}, running "
+                    f"sum of the coarse values returned by the coupling map up to that time {want[i].tolist()} ({total} jumps)", wit)
+        return False
     return True
 
 
